@@ -47,6 +47,16 @@ def direct_cases(rng):
             for nm, f in (("+", lambda x=x, b=bad: x + b), ("-", lambda x=x, b=bad: x - b), ("*", lambda x=x, b=bad: x * b), ("/", lambda x=x, b=bad: x / b)):
                 add("TT %s other" % nm, "wrong argument type %s" % type(bad).__name__, True, f)
             add("TTM @ other", "wrong argument type %s" % type(bad).__name__, True if not torch.is_tensor(bad) else False, lambda A=A, b=bad: A @ b)
+        # multi-element tensor operands whose shape happens to broadcast against the first core (1 x n0 x r1)
+        n0, r1_ = int(x.N[0]), int(x.R[1])
+        for shp_ in ([r1_], [n0, 1], [n0, r1_], [1, n0, r1_], [n0]):
+            if int(np.prod(shp_)) == 1: continue
+            tb = torch.full(shp_, 2.0, dtype=torch.float64)
+            for nm, f in (("/", lambda x=x, b=tb: x / b), ("*", lambda x=x, b=tb: x * b), ("+", lambda x=x, b=tb: x + b), ("-", lambda x=x, b=tb: x - b), ("r*", lambda x=x, b=tb: b * x)):
+                add("TT %s tensor" % nm, "multi-element tensor shaped like (part of) the first core", nm in ("/", "*"), f)
+        for dneg in (-1, -d):
+            add("cat", "negative axis", False, lambda x=x, dneg=dneg: torchtt.cat((x, x), dneg))
+            add("sum", "negative axis", True, lambda x=x, dneg=dneg: x.sum(dneg))
         for ax in ([d], [-1], [0, d + 2], "a", 1.5, [0.0]):
             add("sum", "invalid axis %r" % (ax,), True, lambda x=x, ax=ax: x.sum(ax))
         add("cat", "axis out of range", False, lambda x=x, d=d: torchtt.cat((x, x), d + 1))
